@@ -178,6 +178,9 @@ func c06Check(w *World, c c06Cfg) []Violation {
 			}
 			for _, i := range ks {
 				e := tr[i]
+				if e.Flag != c.parentOnly {
+					vs = append(vs, viol("C06", "wrong-target:kill", "SIGKILL after the time-out sent with parent_only=%v, configured %v", e.Flag, c.parentOnly))
+				}
 				switch {
 				case e.T < deadline:
 					vs = append(vs, viol("C06", "kill-early", "SIGKILL at %v, %v after the stop signal (timeout %ds)", e.T, e.T-ts, c.timeout))
